@@ -68,6 +68,7 @@ HISTORY = {
     "C03-r6-1": "round 6. an argument (the caller's exponent array) is overwritten: caught by C17; C03 now also rebuilds twice from the same attribute objects and catches it too",
     "C03-r6-2": "round 6. options not restored when an exception crosses the block: caught by C14 (the property about exit paths); C03 never lets an exception cross an option block",
     "C15-r6-2": "round 6. first run: missed - the seed exposed a dead monitor: C15's extra operation 'divmod' had been shadowed by the later catalogue entry of the same name (numeric divmod, which refuses polynomials, so every case was skipped as 'fails under defaults too'). Renamed to poly_divmod (with / and %), weighted x4, an assertion forbids such shadowing and every extra operation is a required counter now",
+    "C05-r6-2": "round 6. first run: missed by C05 and C15; divisors (and sometimes dividends) now also come with uint8..uint64 / int8 / int16 coefficients",
     "C06-2": "first run: caught by C06, missed by C15; C15's derivative entry now differentiates with respect to several variables",
 }
 REJECTED = [
